@@ -484,7 +484,7 @@ def _jobs_for(prop, tier):
         return [j for j in jobs_option_below(tier) if j[1][3] == 'combinations'] + jobs_combinations(tier) + jobs_axis0(tier, 'combinations') + jobs_record_below(tier, ('combinations',))
     if prop == 'C03':
         return jobs_c03(tier) + jobs_option_reduce(tier) + jobs_axis(tier, ('reduce',)) + jobs_reduce_nonlocal(tier) + jobs_unmasked_passthrough(('reduce_next',)) + jobs_record_reduce(tier)
-    return {'C02': (lambda t: jobs_c02(t) + jobs_numpy_toregular(t) + jobs_regular_getitem_jagged(t) + jobs_list_asslice(t) + jobs_indexed_widths(t) + jobs_indexed_is_unique(t)), 'C03': jobs_c03, 'C04': (lambda t: jobs_c04(t) + jobs_numpy_toregular(t)), 'C06': (lambda t: jobs_c06(t) + jobs_axis(t, ('sort', 'argsort')) + jobs_numpy_sort(t) + jobs_sort_nonlocal(t) + jobs_option_sort(t) + jobs_option_sort_above(t) + jobs_option_argsort(t) + jobs_string_argsort(t) + jobs_unmasked_passthrough(('sort_next', 'argsort_next'))), 'C08': (lambda t: jobs_c08(t) + jobs_numpy(t) + jobs_numpy_types(t) + jobs_union(t) + jobs_reverse_merge(t) + jobs_record_merge(t) + jobs_list_merge(t) + [j for j in jobs_record_named(t) if j[0] is h_record_mergemany_named] + jobs_merge_union(t) + jobs_union_ops(t)), 'C17': (lambda t: jobs_c17(t) + jobs_record_keys(t) + jobs_record_key_at(t) + jobs_node_form(t) + jobs_numpy_form(t) + jobs_record_form(t) + jobs_node_type(t) + jobs_union_form(t) + jobs_record_depth(t)), 'C12': (lambda t: jobs_numpy(t) + jobs_numpy_astype(t) + [(h_index_alloc, (), 900)] + [(h_axis0, (L_, 'combinations', n_, True), 900) for L_, n_ in ((1, 2), (2, 3), (1, 3), (0, 2))] + [j for j in jobs_numpy_getitem(t) if j[1][3] == 'array']), 'C10': (lambda t: jobs_c10(t) + [j for j in jobs_record_named(t) if j[0] is h_record_field_key] + jobs_project(t) + [j for j in jobs_option_below(t) if j[1][3] in ('getitem_field', 'getitem_fields')] + jobs_record_setitem(t) + jobs_record_key_at(t)), 'C05': jobs_c05, 'C09': jobs_c09}.get(prop, lambda t: [])(tier)
+    return {'C02': (lambda t: jobs_c02(t) + jobs_numpy_toregular(t) + jobs_regular_getitem_jagged(t) + jobs_list_asslice(t) + jobs_indexed_widths(t) + jobs_indexed_is_unique(t)), 'C03': jobs_c03, 'C04': (lambda t: jobs_c04(t) + jobs_numpy_toregular(t)), 'C06': (lambda t: jobs_c06(t) + jobs_axis(t, ('sort', 'argsort')) + jobs_numpy_sort(t) + jobs_sort_nonlocal(t) + jobs_option_sort(t) + jobs_option_sort_above(t) + jobs_option_argsort(t) + jobs_string_argsort(t) + jobs_unmasked_passthrough(('sort_next', 'argsort_next'))), 'C08': (lambda t: jobs_c08(t) + jobs_numpy(t) + jobs_numpy_types(t) + jobs_union(t) + jobs_reverse_merge(t) + jobs_record_merge(t) + jobs_list_merge(t) + [j for j in jobs_record_named(t) if j[0] is h_record_mergemany_named] + jobs_merge_union(t) + jobs_union_ops(t)), 'C17': (lambda t: jobs_c17(t) + jobs_record_keys(t) + jobs_record_key_at(t) + jobs_node_form(t) + jobs_numpy_form(t) + jobs_record_form(t) + jobs_node_type(t) + jobs_union_form(t) + jobs_record_depth(t) + jobs_numpy_type(t)), 'C12': (lambda t: jobs_numpy(t) + jobs_numpy_astype(t) + [(h_index_alloc, (), 900)] + [(h_axis0, (L_, 'combinations', n_, True), 900) for L_, n_ in ((1, 2), (2, 3), (1, 3), (0, 2))] + [j for j in jobs_numpy_getitem(t) if j[1][3] == 'array']), 'C10': (lambda t: jobs_c10(t) + [j for j in jobs_record_named(t) if j[0] is h_record_field_key] + jobs_project(t) + [j for j in jobs_option_below(t) if j[1][3] in ('getitem_field', 'getitem_fields')] + jobs_record_setitem(t) + jobs_record_key_at(t)), 'C05': jobs_c05, 'C09': jobs_c09}.get(prop, lambda t: [])(tier)
 
 
 # ------------------------------------------------------------------------------------------------ C01: getitem_next of list nodes
@@ -6151,6 +6151,73 @@ def h_record_depth(nfields):
 
 def jobs_record_depth(tier):
     return [(h_record_depth, (k,), 600) for k in ((0, 2) if tier == 'quick' else (0, 1, 2, 3))]
+
+
+@guard
+def h_numpy_type(shape, dtype):
+    """NumpyArray::type (no parameters): a one-dimensional array is its primitive; every further dimension wraps it in a fixed-size list,
+    outermost first: shape (n, 2, 3) is `2 * 3 * dtype`"""
+    nc = NodeCtx(['NA', 'RA', 'IDX', 'CNT', 'UTL', 'KD', 'IDS'], [], unwind=max(16, 4 * len(shape) + 12))
+    from .mharness import module_of as _mo
+    for f in TYPE_SRCS + ['src/libawkward/type/PrimitiveType.cpp']:
+        nc.m.eng.mods.append(_mo(f))
+    nc.m.eng.stubs.update(string_stubs(nc))
+    this, elems = build_numpynd(nc, 'np', tuple(shape), dtype)[:2]
+    code = NP_DTYPES[dtype][0]
+    tsc = {}
+    nc.empty_map(tsc, 0, 'typestrs')
+    typestrs = nc.m.record('typestrs', tsc, const=True)
+    nc.m.record('ret', {})
+    cands = [f for mod_ in nc.m.eng.mods for f in mod_.func_src if f.startswith('_ZNK7awkward10NumpyArray4typeERKSt3map')]
+    out = nc.m.call(cands[0], [Ptr('ret', 0), this, typestrs])
+    obls = [('type does not raise', out.raised)]
+    inner = list(shape[1:])
+    p = out.mem.o['ret'].cells[0][0]
+    path = 'the type'
+    for level, size in enumerate(inner + [None]):
+        cs = [(g, q) for g, q in nodeh.ptr_cases(p) if q.obj is not None]
+        if len(cs) != 1:
+            obls.append(('%s can be read back' % path, z3.Not(out.raised)))
+            break
+        q = cs[0][1]
+        o = out.mem.o[q.obj]
+        vp = [str(qq.obj) for gg, qq in nodeh.ptr_cases(o.cells[q.off][0]) if qq.obj is not None] if q.off in o.cells else []
+        want_cls = 'N7awkward11RegularTypeE' if size is not None else 'N7awkward13PrimitiveTypeE'
+        if not (vp and want_cls in vp[0]):
+            obls.append(('%s is a %s (%s)' % (path, 'fixed-size list' if size is not None else 'primitive', vp[:1]), z3.Not(out.raised)))
+            break
+        if size is not None:
+            c = o.cells.get(q.off + 104)
+            obls.append(('%s has size %d (dimension %d of the shape)' % (path, size, level + 1), z3.And(z3.Not(out.raised), (c[0] != size) if c is not None else z3.BoolVal(True))))
+            p = o.cells[q.off + 88][0]
+            path = path + '.inner'
+        else:
+            c = o.cells.get(q.off + 88)
+            obls.append(('the primitive is %s' % dtype, z3.And(z3.Not(out.raised), (c[0] != z3.BitVecVal(code, 32)) if c is not None else z3.BoolVal(True))))
+
+    def replay(model, ent):
+        total = 1
+        for x in shape:
+            total *= x
+        prog = 'i64nd %d %s %s ' % (len(shape), ' '.join(map(str, shape)), ' '.join('1' for _ in range(total)))
+        if dtype != 'int64':
+            prog += 'astype %s ' % dtype
+        prog += 'typestr'
+        kind_, got = fullnative.akrun(prog)
+        want = ''.join('%d * ' % s_ for s_ in shape[1:]) + dtype
+        payload = dict(program=prog, native=[kind_, got], expected=want)
+        if kind_ != 'OK' or got != want:
+            return True, 'type of a NumpyArray of shape %s and dtype %s: native library %s %r, expected %r' % (list(shape), dtype, kind_, got, want), payload
+        return False, 'native type agrees (%s)' % got, payload
+    return mdischarge(nc.m, 'NumpyArray::type shape=%s dtype=%s' % (list(shape), dtype), obls, [], replay=replay,
+                      extra=dict(bounds='shape and dtype concrete (case split); no parameters, no type strings'))
+
+
+def jobs_numpy_type(tier):
+    q = [((3,), 'int64'), ((2, 3), 'int32'), ((1, 2, 3), 'float64')]
+    if tier != 'quick':
+        q += [((2, 0, 2), 'uint8'), ((0,), 'bool'), ((2, 3, 1, 2), 'int64')]
+    return [(h_numpy_type, a, 900) for a in q]
 
 
 def jobs_record_keys(tier):
